@@ -554,7 +554,12 @@ class simplify_chained_calls(FuncADLNodeTransformer):
 
     def visit_Name(self, name_node):
         "Do lookup and see if we should translate or not."
-        return self._arg_stack.lookup_name(name_node.id, default=name_node)
+        replacement = self._arg_stack.lookup_name(name_node.id, default=None)
+        if replacement is None:
+            return name_node
+        # Each use of the argument gets its own copy of the expression: the rewrites that
+        # follow alter nodes in place, and must not alter the other uses with them.
+        return copy.deepcopy(replacement)
 
     def visit_Attribute_Of_First(self, first: ast.expr, attr: str):
         """
